@@ -139,7 +139,23 @@ func ruleLITTYPE(c *Ctx, r *Report) {
 				kind = seq[len(seq)-1]
 			}
 			key := "word|" + strings.Join(seq, ">") + "→" + strings.Join(ops, "")
+			// the kind of the leaf is decided here, by the token: a bare word becomes a Literal or a Wild
+			kinds := ops
+			if len(kinds) == 0 && isCall && call.Call.StaticCallee() != nil {
+				kinds = c.ctorOperatorsDeep(call.Call.StaticCallee(), 0)
+			}
+			kindBad := ""
+			if len(kinds) == 0 {
+				kindBad = "a leaf of a kind this function does not decide (the result is not a constructor call with a known operator)"
+			}
+			for _, k := range kinds {
+				if k != "expr.Literal" && k != "expr.Wild" {
+					kindBad = "possibly a " + k + " node (the callee classifies the text again by its content)"
+				}
+			}
 			switch {
+			case kindBad != "":
+				r.bad(rule, "word|kind|"+strings.Join(seq, ">"), pos, fmt.Sprintf("a bare word (token types %v) becomes %s: only a /…/ token is a regular expression and only an unescaped * or ? makes a pattern — text that merely looks like one after its escapes were removed must stay a plain value", setKeys(toks), kindBad))
 			case !okOrder:
 				r.bad(rule, key, pos, fmt.Sprintf("bare-word typing tests run in the order %v; int must be tried before float before wildcard (e.g. `5` must be an int, `1e3` a float, `a*` a pattern)", seq))
 			case kind == "wild" && hasTrueCall(p.Atoms, "ContainsAny") && !(len(ops) == 1 && ops[0] == "expr.Wild"):
@@ -1551,4 +1567,177 @@ func loopInvariantLoad(a ssa.Value, h *ssa.BasicBlock) bool {
 		}
 	}
 	return true
+}
+
+// ctorOperatorsDeep: the operators of every node a call of f may construct (f's own calls of the general
+// constructor with a constant operator, and those of the library functions it calls, three levels deep).
+func (c *Ctx) ctorOperatorsDeep(f *ssa.Function, depth int) []string {
+	set := map[string]bool{}
+	general := c.pkgFunc(pkgExpr, "Expr")
+	var walk func(g *ssa.Function, d int)
+	seen := map[*ssa.Function]bool{}
+	walk = func(g *ssa.Function, d int) {
+		if g == nil || seen[g] || d > 3 || len(g.Blocks) == 0 {
+			return
+		}
+		seen[g] = true
+		for _, o := range c.ctorOperator(g) {
+			set[o] = true
+		}
+		for _, b := range g.Blocks {
+			for _, in := range b.Instrs {
+				call, ok := in.(*ssa.Call)
+				if !ok {
+					continue
+				}
+				h := call.Call.StaticCallee()
+				if h == nil || h == general || !inLib(h) {
+					continue
+				}
+				if isExprPtr(resultType0(h)) {
+					walk(h, d+1)
+				}
+			}
+		}
+	}
+	walk(f, depth)
+	return setKeys(set)
+}
+
+func resultType0(f *ssa.Function) types.Type {
+	if f.Signature.Results().Len() == 0 {
+		return types.Typ[types.Invalid]
+	}
+	return f.Signature.Results().At(0).Type()
+}
+
+// ESC-DECODE (C08, escaping clause): what the token→literal function does with the backslashes of a bare
+// word. The lexer lets a backslash escape any following character, a backslash included; the writer's
+// contract in the property is "a backslash before each special character denotes exactly that text as a
+// plain value". Structural reading, per bare-word path that ends in a text leaf:
+//   - a plain Literal carries the token text with exactly the escaping backslashes removed: the text itself
+//     where the path established that it contains no backslash, or the pair-wise unescape (an escaped
+//     backslash stands for one backslash; any other backslash is dropped and the next character kept);
+//   - the * / ? test that makes a Wild leaf is not applied to the raw text, in which an escaped \* or \?
+//     still counts as a pattern character.
+func ruleESCDECODE(c *Ctx, r *Report) {
+	const rule = "ESC-DECODE"
+	r.doc(rule, "in the token→literal function, on every bare-word path that ends in a text leaf: a Literal carries the token text itself (where the path shows it has no backslash) or its pair-wise unescape — strings.NewReplacer(`\\\\`→`\\`, `\\`→``) or an equivalent recognised form; dropping every backslash loses escaped backslashes; any other rewrite of the text is not a decoding of the lexer's escapes. The wildcard test is made on a text in which escaped * and ? do not count")
+	pr := c.parserPreamble(r, rule)
+	if pr == nil || pr.TokToLit == nil {
+		if pr != nil {
+			r.bad(rule, "anchor", "-", "token→literal function not found")
+		}
+		return
+	}
+	fn := pr.TokToLit
+	paths, complete := c.enumPathsOpt(fn, 20000, c.inlBool())
+	if !complete {
+		r.bad(rule, "paths", c.pos(fn.Pos()), "too many paths")
+		return
+	}
+	nLit, nWild := 0, 0
+	type verdict struct{ bad, known bool; pos, msg, wit string }
+	out := map[string]*verdict{}
+	set := func(key string, v verdict) {
+		if old, ok := out[key]; ok && old.bad {
+			return
+		}
+		vv := v
+		out[key] = &vv
+	}
+	for _, p := range paths {
+		if p.Ret == nil || len(p.Ret.Results) != 2 || !isNilConst(c.resolve(p.Ret.Results[1], p.Env)) {
+			continue
+		}
+		toks := possibleToks(c, p.Atoms, "$0.Typ")
+		if len(toks) == 1 && (toks["lex.TQuoted"] || toks["lex.TRegexp"]) {
+			continue
+		}
+		res, re := c.resolveE(p.Ret.Results[0], p.Env)
+		call, isCall := res.(*ssa.Call)
+		if !isCall || call.Call.StaticCallee() == nil || len(call.Call.Args) == 0 {
+			continue
+		}
+		ops := c.ctorOperator(call.Call.StaticCallee())
+		if len(ops) != 1 {
+			continue // LIT-TYPE reports leaves of undecided kind
+		}
+		arg, ae := c.resolveE(call.Call.Args[0], re)
+		if mi, ok := arg.(*ssa.MakeInterface); ok {
+			arg, ae = c.resolveE(mi.X, ae)
+		}
+		if !isStringType(arg.Type()) {
+			continue
+		}
+		argKey := c.key(arg, ae)
+		pos := c.instrPos(p.Ret)
+		switch ops[0] {
+		case "expr.Literal":
+			nLit++
+			noBackslash := false
+			for _, a := range p.Atoms {
+				if subj, cs, pol, ok := c.charsetAtom(a); ok && !pol && subj == "$0.Val" && strings.Contains(cs, "\\") {
+					noBackslash = true
+				}
+			}
+			switch {
+			case argKey == "$0.Val" && noBackslash:
+				set("literal|text-without-backslash", verdict{pos: pos, msg: "the token text, on a path that established it has no backslash"})
+			case argKey == "$0.Val":
+				set("literal|raw-text", verdict{bad: true, pos: pos, msg: "a bare word is delivered as its raw token text on a path that has not established that it contains no backslash: the escaping backslashes reach the tree, the SQL constant and the parameter list"})
+			default:
+				if rc, ok := arg.(*ssa.Call); ok && calleeFullName(rc) == "(*strings.Replacer).Replace" && len(rc.Call.Args) == 2 && c.key(rc.Call.Args[1], ae) == "$0.Val" {
+					pairs := c.replacerPairs(c.resolve(rc.Call.Args[0], ae))
+					if len(pairs) == 2 && pairs[0] == [2]string{"\\\\", "\\"} && pairs[1] == [2]string{"\\", ""} {
+						set("literal|pairwise-unescape", verdict{pos: pos, msg: "pair-wise unescape: `\\\\` → `\\`, any other `\\` dropped"})
+						break
+					}
+					set("literal|rewrite|"+fmt.Sprint(pairs), verdict{bad: true, pos: pos, msg: fmt.Sprintf("the bare word's text is rewritten with the replacer %q, which is not the decoding of the lexer's escapes (an escaped backslash stands for one backslash, any other backslash is dropped, the character after it is kept whatever it is)", pairs)})
+					break
+				}
+				if inner, ie, desc, ok := c.rewriteOfE(arg, ae); ok && c.key(inner, ie) == "$0.Val" {
+					if desc == "rewrite[\\→]" {
+						set("literal|every-backslash-dropped", verdict{bad: true, known: true, pos: pos, msg: "the escapes of a bare word are decoded by deleting every backslash, so an escaped backslash is deleted as well: the text the writer escaped is not the value delivered", wit: "`a:x\\\\y` (the text x\\y, its backslash escaped) → LITERAL(\"xy\")"})
+					} else {
+						set("literal|"+desc, verdict{bad: true, pos: pos, msg: "the bare word's text is rewritten by " + desc + ", which is not the decoding of the lexer's escapes"})
+					}
+					break
+				}
+				set("literal|payload|"+argKey, verdict{bad: true, pos: pos, msg: "a bare word becomes a Literal with the text " + argKey + "; it cannot be established that this is the token text with exactly the escaping backslashes removed (every backslash the lexer accepted escapes the character after it, whatever that character is, up to the last one of the word)"})
+			}
+		case "expr.Wild":
+			nWild++
+			subj := ""
+			for i := len(p.Atoms) - 1; i >= 0 && subj == ""; i-- {
+				if s, cs, pol, ok := c.charsetAtom(p.Atoms[i]); ok && pol && strings.ContainsAny(cs, "*?") {
+					subj = s
+				}
+			}
+			switch {
+			case subj == "":
+				set("wild-test|extract", verdict{bad: true, pos: pos, msg: "a Wild leaf is built on a path without a recognisable test for * or ?"})
+			case subj == "$0.Val":
+				set("wild-test|raw-text", verdict{bad: true, known: true, pos: pos, msg: "the wildcard test looks at the raw token text, in which an escaped \\* or \\? still counts: a bare word whose only * or ? is escaped becomes a pattern instead of the plain value the property promises", wit: "`a:b\\*` → (a) LIKE (WILD(\"b\\\\*\")), SQL `\"a\" SIMILAR TO 'b\\%'`"})
+			default:
+				set("wild-test|"+subj, verdict{bad: true, pos: pos, msg: "the wildcard test is made on " + subj + "; it cannot be established that escaped * and ? (and only those) are disregarded"})
+			}
+		}
+	}
+	var keys []string
+	for k := range out {
+		keys = append(keys, k)
+	}
+	sort.Strings(keys)
+	for _, k := range keys {
+		v := out[k]
+		switch {
+		case v.bad:
+			r.badW(rule, k, v.pos, v.msg, v.wit)
+		default:
+			r.ok(rule, k, v.pos, v.msg)
+		}
+	}
+	r.floor(rule, "bare-word text leaves", nLit, 1)
+	r.floor(rule, "wildcard leaves", nWild, 1)
 }
